@@ -53,9 +53,15 @@ Theorem C08_type_line_roundtrip : forall nm k, mname nm ->
   parse_line (lit "# TYPE " ++ nm ++ [32] ++ type_word k) = Some (LType nm (kind_mtype k)).
 Proof. exact type_line_roundtrip. Qed.
 
+(* the word on the TYPE line (get_distribution_type) and the kind of samples written (the
+   Distribution made by get_distribution) are decided by the same predicate of the BASE name: they
+   agree for every set of per-metric overrides, with or without global buckets *)
+Theorem C08_type_line_matches_samples : forall gb ovs f, emit_kind gb ovs f = type_kind gb ovs f.
+Proof. exact emit_kind_type_kind. Qed.
+
 (* every line of a rendering is HELP / TYPE / sample / blank, there are exactly as many lines of
    each sort as the structured rendering has (user strings add none), and the family structure
-   holds; [unit_on rc] ranges over both settings *)
+   holds; [unit_on rc], [gbuckets rc] and [overrides rc] range over all configurations *)
 Theorem C08_family_structure : forall rc, wf_rcase rc = true ->
   exists pl, parse_text (render_text true rc) = Some pl /\ family_ok pl = true
     /\ List.length (filter is_type pl) = List.length (fams rc)
@@ -81,5 +87,6 @@ Proof. exact spec_ok_render_sound. Qed.
 
 Theorem C08_example_satisfiable :
   wf_rcase example_case = true /\ exposition_ok (render_text true example_case) = true
-  /\ exposition_ok (render_text false example_case) = false.
+  /\ exposition_ok (render_text false example_case) = false
+  /\ map (type_kind (gbuckets example_case) (overrides example_case)) (fams example_case) = [KHistogram; KCounter].
 Proof. exact example_satisfiable. Qed.
